@@ -44,14 +44,18 @@ def _alphabet(v, d, model):
                 ops.append({"op": "path_to_dict", "path": p, "type": rng.choice(v.labels), "config": c})
         ops.append({"op": "sid_call", "from": {"s": s}, "m": "path"})
     # Sid OBJECTS handed to the cached entry points (as Finders / Getters do), next to their plain strings
+    obj_groups = []
     for _ in range(6):
         label, s, fields = v.typed_sid(search=0.6)
         others = [l for l in v.labels if len(v.tdict[l]) == len(fields)]
         forced = rng.choice(others + [label])
-        ops.append({"op": "sid", "obj": {"s": forced + ":" + s}})
-        ops.append({"op": "sid", "obj": {"s": s}})
-        ops.append({"op": "sid", "s": s})
-        ops.append({"op": "sid_call", "from": {"obj": {"s": forced + ":" + s}}, "m": "uri"})
+        grp = [{"op": "sid", "obj": {"s": forced + ":" + s}}, {"op": "sid", "obj": {"s": s}}, {"op": "sid", "s": s},
+               {"op": "sid_call", "from": {"obj": {"s": forced + ":" + s}}, "m": "uri"}]
+        ops += grp
+        # the object of a forced type first, then the plain string (and the reverse): placed next to each
+        # other in the histories, not left to chance
+        obj_groups.append([[grp[0]], [grp[2]], [grp[1]]])
+        obj_groups.append([[grp[2]], [grp[0]], [grp[3]]])
     sg = gen.SearchGen(v)
     L, leaves = gen.universe(v)
     for it in range(6):
@@ -135,7 +139,7 @@ def _alphabet(v, d, model):
         rng.shuffle(spellings)
         ops += spellings
         related.append([[sp] for sp in spellings[:4]])
-    v.c13_related = related
+    v.c13_related = related + obj_groups
     return [o for o in ops if o]
 
 
@@ -318,11 +322,6 @@ def oracle_C20(run, n):
             stats["outside_translated_subset"] += 1
             run.notes.append("generated configuration %d is outside the translated subset: %s" % (idx, (err or "")[-300:]))
             continue
-        hier = core.run_model(c, [{"op": "spec_hier_ok"}])[0]
-        if hier.get("ok") is not True:
-            stats["not_conventional"] += 1
-            run.notes.append("generated configuration %d does not satisfy sidHierOk (generator bug): skipped" % idx)
-            continue
         # the loaded table is what the statement of C19 makes of the package: one type per level, named
         # basetype + separator + level key (the generator knows the levels it wrote), each with a path
         P, T, E, V, S = spec["project_key"], spec["type_key"], spec["leaf_key"], spec["version_key"], spec["state_key"]
@@ -341,6 +340,11 @@ def oracle_C20(run, n):
             fails.append(("C20", {"seed": run.seed, "alt": idx, "spec_levels": missing},
                           ["generated configuration %d (to_extrapolate=%r): the loaded sid templates %r lack a type for the levels %r" % (
                               idx, c["raw"]["to_extrapolate"], labels, missing)]))
+            continue
+        hier = core.run_model(c, [{"op": "spec_hier_ok"}])[0]
+        if hier.get("ok") is not True:
+            stats["not_conventional"] += 1
+            run.notes.append("generated configuration %d does not satisfy sidHierOk (generator bug): skipped" % idx)
             continue
         e1, e2 = _c19_expected(c, [{"sep": c["conf"]["sid"]["sep"], "templates": c["raw"]["sid_templates"],
                                     "to_extrapolate": c["raw"]["to_extrapolate"], "key_patterns": c["raw"]["key_patterns"]}])[0]
